@@ -199,5 +199,20 @@ Definition attr_case_ok (c : attr_case) : bool :=
   | Raise _ => false
   end.
 
+(** void (assertion) wrappers: the free library function raises (with the offending tag) iff one
+    of the arguments it receives carries a tag of [bad]; observed = (0 returned | 1 raised, tag
+    found in the call that raised | 2 other exception, code) *)
+Definition arg_tag (a : xarg) : Z := match a with Pln (VObj i) => i | _ => -1 end.
+Definition Vrec (bad : list Z) (a : list xarg) (k : list (key * xarg)) : option Z :=
+  find (fun t => existsb (Z.eqb t) bad) (map arg_tag a ++ map (fun kv => arg_tag (snd kv)) k).
+Definition void_case := (list xarg * list (key * xarg) * list Z * (Z * Z))%type.
+Definition void_case_ok (c : void_case) : bool :=
+  let '(args, kw, bad, (kind, tag)) := c in
+  match map_void_func_over_blocks val Z (Vrec bad) args kw with
+  | Ok None => Z.eqb kind 0
+  | Ok (Some t) => Z.eqb kind 1 && Z.eqb t tag
+  | Raise e => Z.eqb kind 2 && Z.eqb (exc_code e) tag
+  end.
+
 Fixpoint bad_idx {X} (f : X -> bool) (l : list X) (i : nat) : list nat :=
   match l with [] => [] | x :: r => if f x then bad_idx f r (S i) else i :: bad_idx f r (S i) end.
